@@ -4,8 +4,8 @@ import Nstd.Rc.Model
   Line protocol of the Rc area (property C09).
 
   Single-threaded op lines (indices 0..3 inside each kind):
-    snew d hex | slit d hex | scopy d s | sassign d s | sclear d | sappend d hex | sreserve d n | sdel d
-    vcopy d s | vassign d s | vclear d | vseti d x | vsets d hex | vapp d hex | vpush d x | vswap a b
+    snew d hex | slit d hex | scopy d s | sassign d s | sclear d | sappend d hex | sreserve d n | sdel d | sset d hex
+    vcopy d s | vassign d s | vclear d | vseti d x | vsets d hex | vapp d hex | vpush d x | vswap a b | vsetl d x
     xcopy d s | xassign d s | xclear d | xsets d hex | xelem d hex
     pnew d x | pcopy d s | passign d s | pclear d | pswap a b
     end                      (destroy every handle)
@@ -97,6 +97,8 @@ def parseOp (ws : List String) : Option ApiOp :=
   | ["sappend", d, h] => do pure (.sAppend (← idx 0 d) (← fromHex h))
   | ["sreserve", d, n] => do pure (.sReserve (← idx 0 d) (← num n))
   | ["sdel", d] => do pure (.sDel (← idx 0 d))
+  | ["sset", d, h] => do pure (.sSet (← idx 0 d) (← fromHex h))
+  | ["vsetl", d, x] => do pure (.vSetList (← idx 1 d) (← num x))
   | ["vcopy", d, s] => do pure (.vCopy (← idx 1 d) (← idx 1 s))
   | ["vassign", d, s] => do pure (.vAssign (← idx 1 d) (← idx 1 s))
   | ["vclear", d] => do pure (.vClear (← idx 1 d))
